@@ -400,6 +400,7 @@ def load(repo):
         if need not in decls:
             raise AnalysisError('%s: declaration %r not found by clang' % (HEADER, need))
     _expand_value_helpers(decls)
+    _inline_record_locals(decls)
     try:
         os.makedirs(cdir, exist_ok=True)
         import sys
@@ -449,6 +450,227 @@ def _plain_place(n):
     if n.kind == 'CXXOperatorCallExpr' and n.kids and strip(n.kids[0]).ref == 'operator[]' and len(n.kids) == 3:
         return _plain_place(n.kids[1]) and _plain_place(n.kids[2])
     return False
+
+
+def _blank(kind, **kw):
+    n = N()
+    n.kind = n.raw_kind = kind
+    n.name = n.type = n.dtype = n.op = n.value = n.ref = n.refid = n.reftype = n.refkind = None
+    n.arrow = False
+    n.storage = ''
+    n.line = 0
+    n.id = None
+    n.init_style = n.is_postfix = n.has_else = n.cast = None
+    for k, v in kw.items():
+        setattr(n, k, v)
+    return n
+
+
+_CORE_RECORDS = ('chart', 'matrix', 'cell_item', 'config', 'cell', 'combinator_result')
+
+
+def _inline_record_locals(decls):
+    """`const C o(args);` at the top of parse_sentence, C a small class of the header whose constructor fills its members
+    (initialiser list, then a body of plain statements) and whose other methods only return an expression of the members
+    and their parameters: the object reads as the locals it groups.  Each member M becomes a local `o::M` initialised as
+    the constructor initialises it (parameters standing for the arguments), the constructor body runs where the object
+    is declared, o.method(a, ..) reads as the expression the method returns and o.M as the local.  Only when every use
+    of o is such a call or member access, the arguments are plain values, and no method changes a member."""
+    ps = decls.get('parse_sentence')
+    if ps is None:
+        return
+    try:
+        body = body_of(ps)
+    except AnalysisError:
+        return
+    for st in list(body.kids):
+        if st.kind != 'DeclStmt' or len(st.kids) != 1 or st.kids[0].kind != 'VarDecl':
+            continue
+        d = st.kids[0]
+        cname = (d.type or '').replace('const ', '').replace('class ', '').replace('struct ', '').strip()
+        cname = cname.split('::')[-1] if '<' not in cname else cname
+        rec = decls.get(cname)
+        if rec is None or rec.kind != 'CXXRecordDecl' or cname in _CORE_RECORDS:
+            continue
+        init = [k for k in d.kids if k.kind != 'Null' and not k.kind.endswith('Attr')]
+        if len(init) != 1:
+            continue
+        ce = init[0]
+        while ce.kind in ('ExprWithCleanups', 'CXXBindTemporaryExpr', 'MaterializeTemporaryExpr') and len(ce.kids) == 1:
+            ce = ce.kids[0]
+        if ce.kind != 'CXXConstructExpr':
+            continue
+        args = [a for a in ce.kids if a.kind != 'CXXDefaultArgExpr']
+        if len(args) != len(ce.kids):
+            continue
+        ctors = [k for k in rec.kids if k.kind == 'CXXConstructorDecl' and any(c.kind == 'CompoundStmt' for c in k.kids)
+                 and len(params_of(k)) == len(args)]
+        if len(ctors) != 1:
+            continue
+        ct = ctors[0]
+        fields = [k for k in rec.kids if k.kind == 'FieldDecl']
+        fnames = {f.name for f in fields}
+        if not fields:
+            continue
+        # the lookup-object and outside-table shapes have their own readers in the model
+        cbody = body_of(ct)
+
+        def plain_arg(a):
+            a = strip(a)
+            if a.kind == 'CallExpr' and a.kids and strip(a.kids[0]).ref in ('move', 'forward') and len(a.kids) == 2:
+                return plain_arg(a.kids[1])
+            if a.kind in ('IntegerLiteral', 'FloatingLiteral', 'CXXBoolLiteralExpr', 'CXXNullPtrLiteralExpr'):
+                return True
+            if a.kind in ('BinaryOperator',):
+                return all(plain_arg(k) for k in a.kids)
+            if a.kind == 'UnaryOperator' and a.op in ('*', '&', '-', '!'):
+                return plain_arg(a.kids[0])
+            return _plain_place(a)
+        if not all(plain_arg(a) for a in args):
+            continue
+        # methods: { return E; } only, const or not, no write to a member
+        methods = {}
+        ok = True
+        for k in rec.kids:
+            if k.kind != 'CXXMethodDecl' or not any(c.kind == 'CompoundStmt' for c in k.kids) or (k.name or '').startswith('operator'):
+                continue
+            b = body_of(k)
+            if len(b.kids) == 1 and b.kids[0].kind == 'ReturnStmt' and b.kids[0].kids:
+                methods[k.name] = k
+        # uses of o in parse_sentence
+        uses = [n for n in ps.walk() if n.kind == 'DeclRefExpr' and n.ref == d.name and n.refkind in ('VarDecl', None) and (n.refid == d.id or n.refid is None)]
+        sites = []
+        for u in uses:
+            par = u.parent
+            while par is not None and par.kind in ('ImplicitCastExpr', 'ParenExpr') and len(par.kids) == 1:
+                par = par.parent
+            if par is None or par.kind != 'MemberExpr':
+                ok = False
+                break
+            if par.name in fnames:
+                sites.append(('field', par, None))
+            elif par.name in methods and par.parent is not None and par.parent.kind == 'CXXMemberCallExpr' and par.parent.kids[0] is par:
+                call = par.parent
+                cargs = call.kids[1:]
+                if len(cargs) != len(params_of(methods[par.name])) or not all(plain_arg(a) for a in cargs):
+                    ok = False
+                    break
+                sites.append(('call', call, methods[par.name]))
+            else:
+                ok = False
+                break
+        if not ok or not uses:
+            continue
+        used_methods = {id(mth): mth for kind_, _, mth in sites if kind_ == 'call'}
+        # no method used writes a member; the constructor and the methods call no other method of the object
+        def this_member(n):
+            return n.kind == 'MemberExpr' and n.kids and strip(n.kids[0]).kind == 'CXXThisExpr'
+        for fn_ in list(used_methods.values()) + [ct]:
+            for n in fn_.walk():
+                if this_member(n) and n.name not in fnames:
+                    ok = False
+                if n.kind == 'CXXThisExpr' and not (n.parent is not None and (n.parent.kind == 'MemberExpr' or (
+                        n.parent.kind == 'ImplicitCastExpr' and n.parent.parent is not None and n.parent.parent.kind == 'MemberExpr'))):
+                    ok = False
+                if n.kind == 'LambdaExpr':
+                    ok = False
+        for mth in used_methods.values():
+            for n in mth.walk():
+                if n.kind in ('BinaryOperator', 'CompoundAssignOperator') and n.op and n.op.endswith('=') and n.op not in ('==', '!=', '<=', '>='):
+                    ok = False
+                if n.kind == 'UnaryOperator' and n.op in ('++', '--'):
+                    ok = False
+        inits = {}
+        for ini in [c for c in ct.kids if c.kind == 'CXXCtorInitializer']:
+            if not ini.name or ini.name not in fnames:
+                ok = False
+                continue
+            inits[ini.name] = ini
+        if any(n.kind == 'ReturnStmt' for n in cbody.walk()):
+            ok = False
+        if not ok:
+            continue
+        # an object whose constructor neither computes anything in its body nor owns a table of its own is left to the
+        # readers of the model (rule lookup objects, plain records)
+        owns_table = any('matrix' in (f.type or '') for f in fields)
+        if not cbody.kids and not owns_table:
+            continue
+        prefix = d.name + '::'
+
+        def rewrite(n, parent, sub):
+            """clone with: parameters -> arguments, this->M -> local o::M, ids of locals prefixed"""
+            if n.kind == 'DeclRefExpr' and n.refid in sub:
+                a = sub[n.refid]
+                a_ = strip(a)
+                if a_.kind == 'CallExpr' and a_.kids and strip(a_.kids[0]).ref in ('move', 'forward') and len(a_.kids) == 2:
+                    a = a_.kids[1]
+                return clone(a, parent, None)
+            if this_member(n):
+                f = [f_ for f_ in fields if f_.name == n.name][0]
+                return _blank('DeclRefExpr', ref=prefix + n.name, refid=prefix + n.name, refkind='VarDecl', type=f.type, dtype=f.dtype,
+                              reftype=f.type, line=n.line, parent=parent)
+            c = N()
+            for slot in N.__slots__:
+                if slot in ('kids', 'parent'):
+                    continue
+                try:
+                    setattr(c, slot, getattr(n, slot))
+                except AttributeError:
+                    pass
+            if c.kind in ('VarDecl',) and c.id:
+                c.id = prefix + str(c.id)
+            if c.kind == 'DeclRefExpr' and c.refid and c.refkind == 'VarDecl' and str(c.refid) in local_ids:
+                c.refid = prefix + str(c.refid)
+            c.parent = parent
+            c.kids = [rewrite(k, c, sub) for k in n.kids]
+            return c
+        local_ids = {str(n.id) for fn_ in list(used_methods.values()) + [ct] for n in fn_.walk() if n.kind == 'VarDecl' and n.id}
+        sub = {p_.id: a for p_, a in zip(params_of(ct), args)}
+        new_stmts = []
+        for f in fields:
+            v = _blank('VarDecl', name=prefix + f.name, id=prefix + f.name, line=d.line, init_style='call')
+            t_ = (f.type or '').replace('const ', '').strip()
+            v.type = ('parsing::' + t_) if t_ in decls and t_ in _CORE_RECORDS else f.type
+            v.dtype = f.dtype
+            ini = inits.get(f.name)
+            src_ = None
+            if ini is not None and ini.kids:
+                src_ = ini.kids[0]
+                if src_.kind == 'CXXDefaultInitExpr':
+                    fi = [k for k in f.kids if k.kind != 'Null' and not k.kind.endswith('Attr')]
+                    src_ = fi[0] if fi else None
+            elif ini is None:
+                fi = [k for k in f.kids if k.kind != 'Null' and not k.kind.endswith('Attr')]
+                src_ = fi[0] if fi else None
+            if src_ is not None:
+                v.kids = [rewrite(src_, v, sub)]
+            ds = _blank('DeclStmt', line=d.line, parent=body)
+            v.parent = ds
+            ds.kids = [v]
+            new_stmts.append(ds)
+        for s_ in cbody.kids:
+            c_ = rewrite(s_, body, sub)
+            for y in c_.walk():
+                y.line = d.line
+            new_stmts.append(c_)
+        i = body.kids.index(st)
+        body.kids[i:i + 1] = new_stmts
+        for kind_, node, mth in sites:
+            if kind_ == 'field':
+                f = [f_ for f_ in fields if f_.name == node.name][0]
+                rep_ = _blank('DeclRefExpr', ref=prefix + node.name, refid=prefix + node.name, refkind='VarDecl', type=f.type, dtype=f.dtype,
+                              reftype=f.type, line=node.line, parent=node.parent)
+                node.parent.kids[node.parent.kids.index(node)] = rep_
+            else:
+                msub = {p_.id: a for p_, a in zip(params_of(mth), node.kids[1:])}
+                e = body_of(mth).kids[0].kids[0]
+                rep_ = rewrite(e, node.parent, msub)
+                wrap = _blank('ParenExpr', type=node.type, dtype=node.dtype, line=node.line, parent=node.parent)
+                rep_.parent = wrap
+                wrap.kids = [rep_]
+                for y in wrap.walk():
+                    y.line = node.line
+                node.parent.kids[node.parent.kids.index(node)] = wrap
 
 
 def _expand_value_helpers(decls):
